@@ -21,8 +21,14 @@
    (3) definite_integral_even_float_error   the dispatch for an even segment count >= 2
    (4) simpson38_float_error   one 3/8 panel (the one definite_integral splices in for odd counts):
          |r - 3h*(f0 + 3 f1 + 3 f2 + f3)/8| <= ((1+eps)^7 - 1) * 3|h| * (|f0| + 3|f1| + 3|f2| + |f3|)/8
-       (here the products 3*f_i and 3*h are rounded: hypotheses [okmul]).  The odd dispatch of
-       definite_integral (3/8 panel + 1/3 rule on the rest + one more addition) is NOT assembled.
+       (here the products 3*f_i and 3*h are rounded: hypotheses [okmul]).
+   (5) definite_integral for every segment count >= 1:
+         definite_integral_one_float_error     1 segment  = trapezoid, exponent 3
+         definite_integral_even_float_error    2p, p >= 1 = (3)
+         definite_integral_three_float_error   3 segments = the 3/8 panel alone, exponent 7
+         definite_integral_odd_float_error     2p+3, p >= 1: r = fl(fl(0 + s38) + s13),
+           |r - (E38 + E13)| <= ((1+eps)^(max 7 (p+3) + 1) - 1) * (M38 + M13)
+           under the hypotheses of (4) and (2) plus "r is finite".
    Hypotheses (all decidable by running the model; see the Examples): every partial sum finite,
    every doubled / quadrupled value finite (then it is exact), the product h*sum [okmul] and the
    final division [okdiv] (finite, exact value zero or of magnitude >= 2^-1022).               *)
@@ -965,4 +971,389 @@ Proof.
   apply (simpson38_float_error ex_sq 0x1p-2%float 0%float 0x1p-2%float 0x1p-1%float 0x1.8p-1%float
            0x1.2p-3%float 0%float 0x1p-4%float 0x1p-2%float 0x1.2p-1%float);
     try (vm_compute; reflexivity); try qf_okmul; try qf_fin; try qf_okdiv.
+Qed.
+
+(* ======================================================================================= *)
+(* (5) definite_integral: one segment (trapezoid) and odd segment counts (3/8 panel on the
+       last three segments, evaluated first, then the 1/3 rule on the first 2p segments)   *)
+Lemma definite_integral_one {T : Type} {NT : Num T} (f : T -> res T) (a b : T) :
+  definite_integral f a b 1 = trapezoid f a b (N.of_nat 1).
+Proof. reflexivity. Qed.
+
+Section OddDispatch.
+  Context {T : Type} {NT : Num T}.
+  Variable f : T -> res T.
+  Variables a b : T.
+  Variable p : nat.
+  Let h := trap_h a b (2 * p + 3).
+
+  Lemma odd_tests :
+    (N.of_nat (2 * p + 3) =? 1)%N = false /\ N.even (N.of_nat (2 * p + 3)) = false /\
+    (N.of_nat (2 * p + 3) <? 3)%N = false /\ (N.of_nat (2 * p + 3) - 3)%N = N.of_nat (2 * p).
+  Proof.
+    split; [apply N.eqb_neq; lia|]. split.
+    - rewrite Nat2N.inj_add, N.even_add, Nat2N.inj_mul, N.even_mul. reflexivity.
+    - split; [apply N.ltb_ge; lia|lia].
+  Qed.
+
+  Lemma definite_integral_odd (s38 : T) :
+    simpson38 f h (nsub b (nmul h (nofZ 3))) (nsub b (nmul h (nofZ 2))) (nsub b (nmul h (nofZ 1))) b = Ok s38 ->
+    definite_integral f a b (N.of_nat (2 * p + 3))
+    = if (1 <=? p)%nat
+      then bind (simpson13 f h a (N.of_nat (2 * p))) (fun s13 => Ok (nadd (nadd n0 s38) s13))
+      else Ok (nadd n0 s38).
+  Proof.
+    intros Hs. destruct odd_tests as [E1 [E2 [E3 E4]]].
+    unfold definite_integral. cbv zeta. fold (trap_h a b (2 * p + 3)). fold h.
+    rewrite E1, E2, Hs. cbn [bind]. rewrite E3. cbn [bind]. rewrite E4.
+    destruct (Nat.leb_spec 1 p) as [Hp|Hp].
+    - assert (E5 : (1 <? N.of_nat (2 * p))%N = true) by (apply N.ltb_lt; lia). rewrite E5. reflexivity.
+    - assert (E5 : (1 <? N.of_nat (2 * p))%N = false) by (apply N.ltb_ge; lia). rewrite E5. reflexivity.
+  Qed.
+End OddDispatch.
+
+(* ---- real-number side ---- *)
+Lemma scaled_abs (c V A k : R) : 0 < k -> Rabs V <= A -> Rabs (c * V / k) <= Rabs c * A / k.
+Proof.
+  intros Hk HV. unfold Rdiv. rewrite !Rabs_mult, (Rabs_inv k), (Rabs_pos_eq k) by lra.
+  apply Rmult_le_compat_r; [apply Rlt_le, Rinv_0_lt_compat; exact Hk|].
+  apply Rmult_le_compat_l; [apply Rabs_pos|exact HV].
+Qed.
+
+Lemma s38_sum_abs (f0 f1 f2 f3 : pfloat) :
+  Rabs (FR f0 + 3 * FR f1 + 3 * FR f2 + FR f3) <= absFR f0 + 3 * absFR f1 + 3 * absFR f2 + absFR f3.
+Proof.
+  unfold absFR.
+  eapply Rle_trans; [apply Rabs_triang|]. apply Rplus_le_compat; [|apply Rle_refl].
+  eapply Rle_trans; [apply Rabs_triang|]. apply Rplus_le_compat.
+  - eapply Rle_trans; [apply Rabs_triang|]. apply Rplus_le_compat; [apply Rle_refl|].
+    rewrite Rabs_mult, (Rabs_pos_eq 3) by lra. apply Rle_refl.
+  - rewrite Rabs_mult, (Rabs_pos_eq 3) by lra. apply Rle_refl.
+Qed.
+
+Lemma Rsum_tau_alpha (ps : list (pfloat * pfloat)) :
+  Rabs (Rsum (map s13_tau ps)) <= Rsum (map s13_alpha ps).
+Proof.
+  induction ps as [|q ps IH]; cbn [map].
+  - rewrite Rsum_nil, Rabs_R0. lra.
+  - rewrite !Rsum_cons. pose proof (s13_tau_alpha q).
+    eapply Rle_trans; [apply Rabs_triang|]. lra.
+Qed.
+
+Lemma s13_sum_abs (v0 vm ve : pfloat) (ps : list (pfloat * pfloat)) :
+  Rabs (FR v0 + Rsum (map s13_tau ps) + 4 * FR vm + FR ve)
+  <= absFR v0 + Rsum (map s13_alpha ps) + 4 * absFR vm + absFR ve.
+Proof.
+  pose proof (Rsum_tau_alpha ps). unfold absFR.
+  eapply Rle_trans; [apply Rabs_triang|]. apply Rplus_le_compat; [|apply Rle_refl].
+  eapply Rle_trans; [apply Rabs_triang|]. apply Rplus_le_compat.
+  - eapply Rle_trans; [apply Rabs_triang|]. apply Rplus_le_compat; [apply Rle_refl|assumption].
+  - rewrite Rabs_mult, (Rabs_pos_eq 4) by lra. apply Rle_refl.
+Qed.
+
+Lemma two_parts_bound (P1 P2 P M1 M2 E1 E2 x1 x2 d : R) :
+  1 <= P1 -> P1 <= P -> 1 <= P2 -> P2 <= P ->
+  Rabs E1 <= M1 -> Rabs E2 <= M2 ->
+  Rabs (x1 - E1) <= (P1 - 1) * M1 -> Rabs (x2 - E2) <= (P2 - 1) * M2 -> Rabs d <= feps ->
+  Rabs ((x1 + x2) * (1 + d) - (E1 + E2)) <= (P * (1 + feps) - 1) * (M1 + M2).
+Proof.
+  intros H1 H1P H2 H2P B1 B2 X1 X2 Hd. pose proof feps_pos as Hu.
+  pose proof (Rabs_pos E1). pose proof (Rabs_pos E2).
+  assert (G : Rabs ((x1 + x2 + 0) * (1 + d) - (E1 + E2 + 0)) <= (P * (1 + feps) - 1) * (M1 + M2 + Rabs 0)).
+  { apply step_bound; [lra|lra|exact Hd| |].
+    - eapply Rle_trans; [apply Rabs_triang|]. lra.
+    - replace (x1 + x2 - (E1 + E2)) with ((x1 - E1) + (x2 - E2)) by ring.
+      eapply Rle_trans; [apply Rabs_triang|].
+      assert ((P1 - 1) * M1 <= (P - 1) * M1) by (apply Rmult_le_compat_r; lra).
+      assert ((P2 - 1) * M2 <= (P - 1) * M2) by (apply Rmult_le_compat_r; lra).
+      lra. }
+  rewrite Rabs_R0, !Rplus_0_r in G. exact G.
+Qed.
+
+Lemma pow1p_le (m n : nat) : (m <= n)%nat -> (1 + feps) ^ m <= (1 + feps) ^ n.
+Proof. intros H. apply Rle_pow; [pose proof feps_pos; lra|exact H]. Qed.
+
+(* ---- one segment ---- *)
+Theorem definite_integral_one_float_error :
+  forall (f : PrimFloat.float -> res PrimFloat.float) (a b r v0 ve : PrimFloat.float),
+  @definite_integral PrimFloat.float FNum f a b 1 = Ok r ->
+  let h := PrimFloat.div (PrimFloat.sub b a) (@nofN PrimFloat.float FNum 1) in
+  f a = Ok v0 -> f b = Ok ve ->
+  is_finite (Prim2B (PrimFloat.add v0 ve)) = true ->
+  okmul h (PrimFloat.add v0 ve) ->
+  okdiv (PrimFloat.mul h (PrimFloat.add v0 ve)) (@ntwo PrimFloat.float FNum) ->
+  is_finite (Prim2B r) = true /\
+  Rabs (B2R (Prim2B r) - B2R (Prim2B h) * (B2R (Prim2B v0) + B2R (Prim2B ve)) / 2) <=
+    ((1 + bpow radix2 (-53)) ^ 3 - 1) * Rabs (B2R (Prim2B h)) *
+    (Rabs (B2R (Prim2B v0)) + Rabs (B2R (Prim2B ve))) / 2.
+Proof.
+  intros f a b r v0 ve Hr h H0 He Fa Hmul Hdiv.
+  rewrite definite_integral_one in Hr.
+  assert (Hpre : forall k, (k <= 1)%nat ->
+            is_finite (Prim2B (fold_left PrimFloat.add (firstn k (trap_terms [] ve)) v0)) = true).
+  { intros k Hk. destruct k as [|[|k]]; try lia; cbn [trap_terms map app firstn fold_left].
+    - apply (add_ffin_inv _ _ Fa).
+    - exact Fa. }
+  destruct (trapezoid_float_error f a b 1 r v0 ve [] (le_n 1) Hr H0 eq_refl
+              ltac:(intros i Hi; inversion Hi) He Hpre Hmul Hdiv) as [Fr B].
+  split; [exact Fr|]. cbn [map] in B. rewrite Rsum_nil in B.
+  change (1 + 2)%nat with 3%nat in B. fold h in B.
+  replace (B2R (Prim2B v0) + B2R (Prim2B ve)) with (B2R (Prim2B v0) + 2 * 0 + B2R (Prim2B ve)) by ring.
+  replace (Rabs (B2R (Prim2B v0)) + Rabs (B2R (Prim2B ve)))
+    with (Rabs (B2R (Prim2B v0)) + 2 * 0 + Rabs (B2R (Prim2B ve))) by ring.
+  exact B.
+Qed.
+
+(* ---- three segments: the 3/8 panel alone, then `0.0 + s` ---- *)
+Lemma simpson38_closed (f : pfloat -> res pfloat) (h p0 p1 p2 p3 f0 f1 f2 f3 : pfloat) :
+  f p0 = Ok f0 -> f p1 = Ok f1 -> f p2 = Ok f2 -> f p3 = Ok f3 ->
+  @simpson38 pfloat FNum f h p0 p1 p2 p3
+  = Ok (PrimFloat.div (PrimFloat.mul (PrimFloat.mul (nofZ 3) h)
+          (PrimFloat.add (PrimFloat.add (PrimFloat.add f0 (PrimFloat.mul (nofZ 3) f1)) (PrimFloat.mul (nofZ 3) f2)) f3))
+          (nofZ 8)).
+Proof. intros H0 H1 H2 H3. unfold simpson38. rewrite H0, H1, H2, H3. reflexivity. Qed.
+
+Lemma definite_integral_three_float_error_core (f : pfloat -> res pfloat) (a b r g0 g1 g2 g3 : pfloat) :
+  @definite_integral pfloat FNum f a b 3 = Ok r ->
+  let h := @trap_h pfloat FNum a b 3 in
+  let three := @nofZ pfloat FNum 3 in
+  f (PrimFloat.sub b (PrimFloat.mul h (nofZ 3))) = Ok g0 ->
+  f (PrimFloat.sub b (PrimFloat.mul h (nofZ 2))) = Ok g1 ->
+  f (PrimFloat.sub b (PrimFloat.mul h (nofZ 1))) = Ok g2 ->
+  f b = Ok g3 ->
+  let t1 := PrimFloat.mul three g1 in
+  let t2 := PrimFloat.mul three g2 in
+  let s := PrimFloat.add (PrimFloat.add (PrimFloat.add g0 t1) t2) g3 in
+  okmul three g1 -> okmul three g2 ->
+  ffin (PrimFloat.add g0 t1) -> ffin (PrimFloat.add (PrimFloat.add g0 t1) t2) -> ffin s ->
+  okmul three h -> okmul (PrimFloat.mul three h) s ->
+  okdiv (PrimFloat.mul (PrimFloat.mul three h) s) (nofZ 8) ->
+  ffin r /\
+  Rabs (FR r - 3 * FR h * (FR g0 + 3 * FR g1 + 3 * FR g2 + FR g3) / 8) <=
+    ((1 + feps) ^ 7 - 1) * (3 * Rabs (FR h)) * (absFR g0 + 3 * absFR g1 + 3 * absFR g2 + absFR g3) / 8.
+Proof.
+  intros Hr h three G0 G1 G2 G3 t1 t2 s M1 M2 A1 A2 A3 Mh Mp Dv.
+  pose proof (simpson38_closed f h _ _ _ _ _ _ _ _ G0 G1 G2 G3) as Hs38.
+  fold three t1 t2 s in Hs38.
+  set (S38 := PrimFloat.div (PrimFloat.mul (PrimFloat.mul three h) s) (nofZ 8)) in *.
+  assert (D : @definite_integral pfloat FNum f a b 3 = Ok (PrimFloat.add PrimFloat.zero S38))
+    by exact (definite_integral_odd f a b 0 S38 Hs38).
+  rewrite D in Hr.
+  assert (Er : r = PrimFloat.add PrimFloat.zero S38) by (injection Hr; intros E; symmetry; exact E).
+  clear Hr D. subst r.
+  destruct (simpson38_float_error_core f h _ _ _ _ S38 g0 g1 g2 g3 Hs38 G0 G1 G2 G3 M1 M2 A1 A2 A3 Mh Mp Dv)
+    as [F38 B38].
+  destruct (add_zero_l_FR S38 F38) as [Fr Er].
+  split; [exact Fr|]. rewrite Er. exact B38.
+Qed.
+
+Theorem definite_integral_three_float_error :
+  forall (f : PrimFloat.float -> res PrimFloat.float) (a b r g0 g1 g2 g3 : PrimFloat.float),
+  @definite_integral PrimFloat.float FNum f a b 3 = Ok r ->
+  let h := PrimFloat.div (PrimFloat.sub b a) (@nofN PrimFloat.float FNum 3) in
+  let three := @nofZ PrimFloat.float FNum 3 in
+  f (PrimFloat.sub b (PrimFloat.mul h (@nofZ PrimFloat.float FNum 3))) = Ok g0 ->
+  f (PrimFloat.sub b (PrimFloat.mul h (@nofZ PrimFloat.float FNum 2))) = Ok g1 ->
+  f (PrimFloat.sub b (PrimFloat.mul h (@nofZ PrimFloat.float FNum 1))) = Ok g2 ->
+  f b = Ok g3 ->
+  let t1 := PrimFloat.mul three g1 in
+  let t2 := PrimFloat.mul three g2 in
+  let s := PrimFloat.add (PrimFloat.add (PrimFloat.add g0 t1) t2) g3 in
+  okmul three g1 -> okmul three g2 ->
+  is_finite (Prim2B (PrimFloat.add g0 t1)) = true ->
+  is_finite (Prim2B (PrimFloat.add (PrimFloat.add g0 t1) t2)) = true ->
+  is_finite (Prim2B s) = true ->
+  okmul three h -> okmul (PrimFloat.mul three h) s ->
+  okdiv (PrimFloat.mul (PrimFloat.mul three h) s) (@nofZ PrimFloat.float FNum 8) ->
+  is_finite (Prim2B r) = true /\
+  Rabs (B2R (Prim2B r) -
+        3 * B2R (Prim2B h) *
+          (B2R (Prim2B g0) + 3 * B2R (Prim2B g1) + 3 * B2R (Prim2B g2) + B2R (Prim2B g3)) / 8) <=
+    ((1 + bpow radix2 (-53)) ^ 7 - 1) * (3 * Rabs (B2R (Prim2B h))) *
+    (Rabs (B2R (Prim2B g0)) + 3 * Rabs (B2R (Prim2B g1)) + 3 * Rabs (B2R (Prim2B g2))
+     + Rabs (B2R (Prim2B g3))) / 8.
+Proof. exact definite_integral_three_float_error_core. Qed.
+
+(* ---- 2p + 3 segments, p >= 1 ---- *)
+Lemma definite_integral_odd_float_error_core (f : pfloat -> res pfloat) (a b : pfloat) (p : nat)
+      (r g0 g1 g2 g3 v0 vm ve : pfloat) (ps : list (pfloat * pfloat)) :
+  (1 <= p)%nat ->
+  @definite_integral pfloat FNum f a b (N.of_nat (2 * p + 3)) = Ok r ->
+  let h := @trap_h pfloat FNum a b (2 * p + 3) in
+  let three := @nofZ pfloat FNum 3 in
+  f (PrimFloat.sub b (PrimFloat.mul h (nofZ 3))) = Ok g0 ->
+  f (PrimFloat.sub b (PrimFloat.mul h (nofZ 2))) = Ok g1 ->
+  f (PrimFloat.sub b (PrimFloat.mul h (nofZ 1))) = Ok g2 ->
+  f b = Ok g3 ->
+  let t1 := PrimFloat.mul three g1 in
+  let t2 := PrimFloat.mul three g2 in
+  let s := PrimFloat.add (PrimFloat.add (PrimFloat.add g0 t1) t2) g3 in
+  okmul three g1 -> okmul three g2 ->
+  ffin (PrimFloat.add g0 t1) -> ffin (PrimFloat.add (PrimFloat.add g0 t1) t2) -> ffin s ->
+  okmul three h -> okmul (PrimFloat.mul three h) s ->
+  okdiv (PrimFloat.mul (PrimFloat.mul three h) s) (nofZ 8) ->
+  f a = Ok v0 -> length ps = (p - 1)%nat -> s13_samples f h a ps ->
+  f (PrimFloat.sub (@snode pfloat FNum h a p) h) = Ok vm -> f (@snode pfloat FNum h a p) = Ok ve ->
+  (forall k, (k <= p)%nat -> ffin (fsum (firstn k (s13_terms ps vm ve)) v0)) ->
+  okmul h (fsum (s13_terms ps vm ve) v0) ->
+  okdiv (PrimFloat.mul h (fsum (s13_terms ps vm ve) v0)) (nofZ 3) ->
+  ffin r ->
+  Rabs (FR r -
+        (3 * FR h * (FR g0 + 3 * FR g1 + 3 * FR g2 + FR g3) / 8
+         + FR h * (FR v0 + Rsum (map s13_tau ps) + 4 * FR vm + FR ve) / 3)) <=
+    ((1 + feps) ^ (Nat.max 7 (p + 3) + 1) - 1) *
+    (3 * Rabs (FR h) * (absFR g0 + 3 * absFR g1 + 3 * absFR g2 + absFR g3) / 8
+     + Rabs (FR h) * (absFR v0 + Rsum (map s13_alpha ps) + 4 * absFR vm + absFR ve) / 3).
+Proof.
+  intros Hp Hr h three G0 G1 G2 G3 t1 t2 s M1 M2 A1 A2 A3 Mh Mp Dv H0 L Hs Hvm Hve Hpre Hmul Hdiv Fr.
+  pose proof (simpson38_closed f h _ _ _ _ _ _ _ _ G0 G1 G2 G3) as Hs38.
+  fold three t1 t2 s in Hs38.
+  set (S38 := PrimFloat.div (PrimFloat.mul (PrimFloat.mul three h) s) (nofZ 8)) in *.
+  rewrite (definite_integral_odd f a b p S38 Hs38) in Hr.
+  replace (1 <=? p)%nat with true in Hr by (symmetry; apply Nat.leb_le; exact Hp).
+  apply bind_ok in Hr. destruct Hr as [S13 [Hs13 Hr]].
+  assert (Er : r = PrimFloat.add (PrimFloat.add PrimFloat.zero S38) S13)
+    by (injection Hr; intros E; symmetry; exact E).
+  clear Hr. subst r.
+  destruct (simpson38_float_error_core f h _ _ _ _ S38 g0 g1 g2 g3 Hs38 G0 G1 G2 G3 M1 M2 A1 A2 A3 Mh Mp Dv)
+    as [F38 B38].
+  destruct (simpson13_float_error_core f h a p S13 v0 vm ve ps Hp Hs13 H0 L Hs Hvm Hve Hpre Hmul Hdiv)
+    as [F13 B13].
+  destruct (add_zero_l_FR S38 F38) as [Fu Eu].
+  destruct (add_finite_rel _ _ Fu F13 Fr) as [d [Hd Er]]. rewrite Er, Eu.
+  set (V38 := FR g0 + 3 * FR g1 + 3 * FR g2 + FR g3) in *.
+  set (A38 := absFR g0 + 3 * absFR g1 + 3 * absFR g2 + absFR g3) in *.
+  set (V13 := FR v0 + Rsum (map s13_tau ps) + 4 * FR vm + FR ve) in *.
+  set (A13 := absFR v0 + Rsum (map s13_alpha ps) + 4 * absFR vm + absFR ve) in *.
+  pose proof feps_pos as Hu.
+  assert (H3h : Rabs (3 * FR h) = 3 * Rabs (FR h)) by (rewrite Rabs_mult, (Rabs_pos_eq 3) by lra; reflexivity).
+  assert (BE38 : Rabs (3 * FR h * V38 / 8) <= 3 * Rabs (FR h) * A38 / 8).
+  { rewrite <- H3h. apply scaled_abs; [lra|apply s38_sum_abs]. }
+  assert (BE13 : Rabs (FR h * V13 / 3) <= Rabs (FR h) * A13 / 3).
+  { apply scaled_abs; [lra|apply s13_sum_abs]. }
+  assert (X38 : Rabs (FR S38 - 3 * FR h * V38 / 8) <= ((1 + feps) ^ 7 - 1) * (3 * Rabs (FR h) * A38 / 8)).
+  { eapply Rle_trans; [exact B38|]. apply Req_le. unfold Rdiv. ring. }
+  assert (X13 : Rabs (FR S13 - FR h * V13 / 3) <= ((1 + feps) ^ (p + 3) - 1) * (Rabs (FR h) * A13 / 3)).
+  { eapply Rle_trans; [exact B13|]. apply Req_le. unfold Rdiv. ring. }
+  replace ((1 + feps) ^ (Nat.max 7 (p + 3) + 1)) with ((1 + feps) ^ Nat.max 7 (p + 3) * (1 + feps))
+    by (rewrite pow_add; cbn [pow]; ring).
+  apply (two_parts_bound ((1 + feps) ^ 7) ((1 + feps) ^ (p + 3))); try assumption.
+  - apply pow1p_ge1; lra.
+  - apply pow1p_le, Nat.le_max_l.
+  - apply pow1p_ge1; lra.
+  - apply pow1p_le, Nat.le_max_r.
+Qed.
+
+(* Final statement, 2p + 3 segments with p >= 1.  h = (b - a)/(2p+3) as computed.  The 3/8 panel is taken
+   at q3 = b - h*3, q2 = b - h*2, q1 = b - h*1, b (as computed; values g0..g3); the 1/3 rule runs on the
+   first 2p segments from a (values v0, ps, vm, ve as in [simpson13_float_error]).  r = fl(fl(0 + s38) + s13):
+   one more rounding on top of the larger of the two exponents 7 and p + 3. *)
+Theorem definite_integral_odd_float_error :
+  forall (f : PrimFloat.float -> res PrimFloat.float) (a b : PrimFloat.float) (p : nat)
+         (r g0 g1 g2 g3 v0 vm ve : PrimFloat.float) (ps : list (PrimFloat.float * PrimFloat.float)),
+  (1 <= p)%nat ->
+  @definite_integral PrimFloat.float FNum f a b (N.of_nat (2 * p + 3)) = Ok r ->
+  let h := PrimFloat.div (PrimFloat.sub b a) (@nofN PrimFloat.float FNum (N.of_nat (2 * p + 3))) in
+  let three := @nofZ PrimFloat.float FNum 3 in
+  f (PrimFloat.sub b (PrimFloat.mul h (@nofZ PrimFloat.float FNum 3))) = Ok g0 ->
+  f (PrimFloat.sub b (PrimFloat.mul h (@nofZ PrimFloat.float FNum 2))) = Ok g1 ->
+  f (PrimFloat.sub b (PrimFloat.mul h (@nofZ PrimFloat.float FNum 1))) = Ok g2 ->
+  f b = Ok g3 ->
+  let t1 := PrimFloat.mul three g1 in
+  let t2 := PrimFloat.mul three g2 in
+  let s := PrimFloat.add (PrimFloat.add (PrimFloat.add g0 t1) t2) g3 in
+  okmul three g1 -> okmul three g2 ->
+  is_finite (Prim2B (PrimFloat.add g0 t1)) = true ->
+  is_finite (Prim2B (PrimFloat.add (PrimFloat.add g0 t1) t2)) = true ->
+  is_finite (Prim2B s) = true ->
+  okmul three h -> okmul (PrimFloat.mul three h) s ->
+  okdiv (PrimFloat.mul (PrimFloat.mul three h) s) (@nofZ PrimFloat.float FNum 8) ->
+  f a = Ok v0 -> length ps = (p - 1)%nat ->
+  (forall j, (j < length ps)%nat ->
+     f (PrimFloat.sub (@snode PrimFloat.float FNum h a (S j)) h) = Ok (fst (nth j ps (PrimFloat.zero, PrimFloat.zero))) /\
+     f (@snode PrimFloat.float FNum h a (S j)) = Ok (snd (nth j ps (PrimFloat.zero, PrimFloat.zero)))) ->
+  f (PrimFloat.sub (@snode PrimFloat.float FNum h a p) h) = Ok vm ->
+  f (@snode PrimFloat.float FNum h a p) = Ok ve ->
+  (forall k, (k <= p)%nat ->
+     is_finite (Prim2B (fold_left PrimFloat.add (firstn k (s13_terms ps vm ve)) v0)) = true) ->
+  okmul h (fold_left PrimFloat.add (s13_terms ps vm ve) v0) ->
+  okdiv (PrimFloat.mul h (fold_left PrimFloat.add (s13_terms ps vm ve) v0)) (@nofZ PrimFloat.float FNum 3) ->
+  is_finite (Prim2B r) = true ->
+  Rabs (B2R (Prim2B r) -
+        (3 * B2R (Prim2B h) *
+           (B2R (Prim2B g0) + 3 * B2R (Prim2B g1) + 3 * B2R (Prim2B g2) + B2R (Prim2B g3)) / 8
+         + B2R (Prim2B h) *
+           (B2R (Prim2B v0)
+            + Rsum (map (fun q => 4 * B2R (Prim2B (fst q)) + 2 * B2R (Prim2B (snd q))) ps)
+            + 4 * B2R (Prim2B vm) + B2R (Prim2B ve)) / 3)) <=
+    ((1 + bpow radix2 (-53)) ^ (Nat.max 7 (p + 3) + 1) - 1) *
+    (3 * Rabs (B2R (Prim2B h)) *
+       (Rabs (B2R (Prim2B g0)) + 3 * Rabs (B2R (Prim2B g1)) + 3 * Rabs (B2R (Prim2B g2))
+        + Rabs (B2R (Prim2B g3))) / 8
+     + Rabs (B2R (Prim2B h)) *
+       (Rabs (B2R (Prim2B v0))
+        + Rsum (map (fun q => 4 * Rabs (B2R (Prim2B (fst q))) + 2 * Rabs (B2R (Prim2B (snd q)))) ps)
+        + 4 * Rabs (B2R (Prim2B vm)) + Rabs (B2R (Prim2B ve))) / 3).
+Proof. exact definite_integral_odd_float_error_core. Qed.
+
+(* non-vacuity, odd count: x*x on [0,1] with 5 segments (p = 1: 3/8 panel on [2/5,1], one 1/3 panel on [0,2/5]);
+   the sampled values are defined by computation *)
+Definition ex5_h : PrimFloat.float := Eval vm_compute in (1 / 5)%float.
+Definition ex5_sq (x : PrimFloat.float) : PrimFloat.float := PrimFloat.mul x x.
+Definition ex5_g0 : PrimFloat.float := Eval vm_compute in ex5_sq (1 - ex5_h * 3)%float.
+Definition ex5_g1 : PrimFloat.float := Eval vm_compute in ex5_sq (1 - ex5_h * 2)%float.
+Definition ex5_g2 : PrimFloat.float := Eval vm_compute in ex5_sq (1 - ex5_h * 1)%float.
+Definition ex5_vm : PrimFloat.float := Eval vm_compute in ex5_sq (0 + 2 * ex5_h - ex5_h)%float.
+Definition ex5_ve : PrimFloat.float := Eval vm_compute in ex5_sq (0 + 2 * ex5_h)%float.
+
+Definition ex5_r : PrimFloat.float := Eval vm_compute in
+  match @definite_integral PrimFloat.float FNum (fun x => Ok (PrimFloat.mul x x)) 0%float 1%float 5 with
+  | Ok x => x | _ => PrimFloat.nan end.
+
+Example ex_odd_float_error :
+  exists r, @definite_integral PrimFloat.float FNum ex_sq 0%float 1%float 5 = Ok r /\
+  is_finite (Prim2B r) = true /\
+  Rabs (B2R (Prim2B r) -
+        (3 * B2R (Prim2B ex5_h) *
+           (B2R (Prim2B ex5_g0) + 3 * B2R (Prim2B ex5_g1) + 3 * B2R (Prim2B ex5_g2) + B2R (Prim2B 1%float)) / 8
+         + B2R (Prim2B ex5_h) *
+           (B2R (Prim2B 0%float)
+            + Rsum (map (fun q => 4 * B2R (Prim2B (fst q)) + 2 * B2R (Prim2B (snd q))) [])
+            + 4 * B2R (Prim2B ex5_vm) + B2R (Prim2B ex5_ve)) / 3)) <=
+    ((1 + bpow radix2 (-53)) ^ 8 - 1) *
+    (3 * Rabs (B2R (Prim2B ex5_h)) *
+       (Rabs (B2R (Prim2B ex5_g0)) + 3 * Rabs (B2R (Prim2B ex5_g1)) + 3 * Rabs (B2R (Prim2B ex5_g2))
+        + Rabs (B2R (Prim2B 1%float))) / 8
+     + Rabs (B2R (Prim2B ex5_h)) *
+       (Rabs (B2R (Prim2B 0%float))
+        + Rsum (map (fun q => 4 * Rabs (B2R (Prim2B (fst q))) + 2 * Rabs (B2R (Prim2B (snd q)))) [])
+        + 4 * Rabs (B2R (Prim2B ex5_vm)) + Rabs (B2R (Prim2B ex5_ve))) / 3).
+Proof.
+  exists ex5_r.
+  assert (E : @definite_integral PrimFloat.float FNum ex_sq 0%float 1%float 5 = Ok ex5_r) by (vm_compute; reflexivity).
+  split; [exact E|].
+  assert (Fr : is_finite (Prim2B ex5_r) = true) by qf_fin.
+  split; [exact Fr|].
+  apply (definite_integral_odd_float_error ex_sq 0%float 1%float 1 ex5_r ex5_g0 ex5_g1 ex5_g2 1%float
+           0%float ex5_vm ex5_ve []); try exact Fr; try exact E.
+  all: try lia.
+  all: try (vm_compute; reflexivity).
+  all: try qf_okmul.
+  all: try qf_fin.
+  all: try qf_okdiv.
+  - intros j Hj. inversion Hj.
+  - intros k Hk. destruct k as [|[|k]]; try lia; qf_fin.
+Qed.
+
+(* the four dispatch theorems cover every segment count >= 1 *)
+Lemma segment_count_cases : forall n : N, (1 <= n)%N ->
+  n = 1%N \/ (exists p, (1 <= p)%nat /\ n = N.of_nat (2 * p)) \/ n = 3%N \/
+  (exists p, (1 <= p)%nat /\ n = N.of_nat (2 * p + 3)).
+Proof.
+  intros n Hn.
+  destruct (N.eq_dec n 1) as [->|H1]; [left; reflexivity|right].
+  destruct (N.eq_dec n 3) as [->|H3]; [right; left; reflexivity|].
+  destruct (N.Even_or_Odd n) as [[k Hk]|[k Hk]].
+  - left. exists (N.to_nat k). split; [lia|]. lia.
+  - right; right. exists (N.to_nat k - 1)%nat. split; [lia|]. lia.
 Qed.
